@@ -353,6 +353,7 @@ func init() {
 				StepCheck: stepDeadline,
 				Final: func(w *World) {
 					w.monitorHostile()
+					w.monitorRequests()
 				},
 			}
 			if !anywhere {
